@@ -8,7 +8,9 @@ SB == Sels \cup {BadSel}
 Texts == {<<a>> : a \in SB} \cup {<<a, b>> : a \in SB, b \in SB} \cup {<<a, b, c>> : a \in Sels, b \in SB, c \in Sels}
 Alphabet == {[op |-> "append", s |-> s, mode |-> m] : s \in SB, m \in {"raise", "log"}}
             \cup {[op |-> "settext", ss |-> t, mode |-> m] : t \in Texts, m \in {"raise", "log"}}
+            \cup {[op |-> "setitem", i |-> i, s |-> s, mode |-> "raise"] : i \in 1..MaxLen, s \in SB}
 Act(a) == /\ Len(hist) < MaxHist
+          /\ (a.op = "setitem" => a.i <= Len(list) /\ a.s \notin Range(list))      \* (a selector already present: the property is silent)
           /\ list' = ListRef(list, a).list
           /\ hist' = Append(hist, a)
           /\ (Emit => PrintT(<<"HIST", ToJson([h |-> Append(hist, a), s |-> list])>>))
